@@ -477,8 +477,9 @@ Lemma min_list_spec : forall l,
   | None => l = []
   end.
 Proof.
-  induction l as [|x l IH]; cbn; [reflexivity|].
-  destruct (min_list l) as [m|]; cbn.
+  induction l as [|x l IH]; [reflexivity|].
+  change (min_list (x :: l)) with (omin (Some x) (min_list l)).
+  destruct (min_list l) as [m|]; cbn [omin].
   - destruct IH as [Hin Hle]. destruct (N.min_spec x m) as [[Hlt ->]|[Hge ->]].
     + split; [left; reflexivity|]. intros y [<-|Hy]; [lia|]. specialize (Hle y Hy). lia.
     + split; [right; exact Hin|]. intros y [<-|Hy]; [lia|]. apply Hle; exact Hy.
@@ -498,7 +499,7 @@ Lemma cut_cap_ext : forall g S1 S2,
 Proof.
   intros g S1 S2. unfold cut_cap. induction (ge g) as [|[[u v] w] E IH]; intros H; cbn; [reflexivity|].
   destruct (H u v w (or_introl eq_refl)) as [-> ->]. rewrite IH; [reflexivity|].
-  intros; apply H; right; assumption.
+  intros u' v' w' Hin. apply (H u' v' w'). right; exact Hin.
 Qed.
 
 Theorem mincut_spec : forall g s t, wf g -> s < gn g -> t < gn g ->
@@ -522,7 +523,8 @@ Proof.
   - destruct H as [Hc Hle]. apply in_map_iff in Hc. destruct Hc as [m [Ec Hm]]. split.
     + exists (mask_fn m). unfold ms in Hm. apply filter_In in Hm. destruct Hm as [_ Hm].
       apply andb_true_iff in Hm. destruct Hm as [Hm1 Hm2]. apply negb_true_iff in Hm2. auto.
-    + intros S H1 H2. rewrite <- Hcap. apply Hle. apply in_map. apply Hin; assumption.
+    + intros S H1 H2. rewrite <- Hcap. apply Hle.
+      apply (in_map (fun m => cut_cap g (mask_fn m))). apply Hin; assumption.
   - destruct (Nat.eq_dec s t) as [E|NE]; [exact E|]. exfalso.
     apply map_eq_nil in H. specialize (Hin (fun v => v =? s)). rewrite H in Hin.
     apply Hin; [apply Nat.eqb_refl|]. apply Nat.eqb_neq. auto.
@@ -606,3 +608,170 @@ Proof.
   intros g Hwf Hn. split; [apply comp_of_nodup|]. intros v.
   rewrite comp_of_in; [|apply wf_sym; exact Hwf|exact Hn]. rewrite sym_mutual. reflexivity.
 Qed.
+
+(* ================================================================== *)
+(* triangles and clustering coefficients                                *)
+(* ================================================================== *)
+
+Lemma arcb_spec : forall g u v, arcb g u v = true <-> arc g u v.
+Proof.
+  intros g u v. unfold arcb, arc. rewrite existsb_exists. split.
+  - intros [[[a b] w] [Hin H]]. unfold esrc, edst in H. cbn [fst snd] in H.
+    apply andb_true_iff in H. rewrite !Nat.eqb_eq in H. destruct H; subst. exists w; exact Hin.
+  - intros [w Hin]. exists (u, v, w). split; [exact Hin|]. unfold esrc, edst. cbn [fst snd].
+    rewrite !Nat.eqb_refl. reflexivity.
+Qed.
+
+Lemma adjb_spec : forall g u v, adjb g u v = true <-> adj g u v.
+Proof. intros g u v. unfold adjb, adj. rewrite orb_true_iff, !arcb_spec. reflexivity. Qed.
+
+Definition triangle (g : graph) (u v w : nat) : Prop :=
+  u < v /\ v < w /\ w < gn g /\ adj g u v /\ adj g v w /\ adj g u w.
+
+(* the counted list enumerates every triangle exactly once *)
+Theorem triangles_def : forall g,
+  NoDup (tri_list g) /\
+  (forall u v w, In (u, (v, w)) (tri_list g) <-> triangle g u v w) /\
+  triangles_spec g = N.of_nat (length (tri_list g)).
+Proof.
+  intros g. split; [|split; [|reflexivity]].
+  - unfold tri_list, triples. repeat apply NoDup_filter.
+    repeat apply nodup_list_prod; apply seq_NoDup.
+  - intros u v w. unfold tri_list, triples, is_tri, triangle.
+    rewrite !filter_In, !in_prod_iff, !in_seq. cbn [fst snd].
+    rewrite !andb_true_iff, !Nat.ltb_lt, !adjb_spec. split.
+    + intros [[[_ [_ Hw]] [H1 H2]] [[H3 H4] H5]]. repeat split; try assumption; lia.
+    + intros [H1 [H2 [H3 [H4 [H5 H6]]]]]. repeat split; try assumption; lia.
+Qed.
+
+Theorem lcc_u_def : forall g v,
+  NoDup (nbrs g v) /\
+  (forall u, In u (nbrs g v) <-> u < gn g /\ u <> v /\ adj g u v) /\
+  NoDup (nbr_pairs g v) /\
+  (forall a b, In (a, b) (nbr_pairs g v) <->
+               a < b /\ In a (nbrs g v) /\ In b (nbrs g v) /\ adj g a b) /\
+  lcc_u g v =
+    (let d := length (nbrs g v) in
+     if d <? 2 then (0%N, 1%N)
+     else (N.of_nat (length (nbr_pairs g v)), N.of_nat (d * (d - 1) / 2))).
+Proof.
+  intros g v. assert (Hn : NoDup (nbrs g v)) by (unfold nbrs; apply NoDup_filter, seq_NoDup).
+  split; [exact Hn|]. split; [|split; [|split; [|reflexivity]]].
+  - intros u. unfold nbrs. rewrite filter_In, in_seq, andb_true_iff, negb_true_iff, Nat.eqb_neq, adjb_spec.
+    split; [intros [H1 [H2 H3]]|intros [H1 [H2 H3]]]; repeat split; try assumption; lia.
+  - unfold nbr_pairs. apply NoDup_filter. apply nodup_list_prod; exact Hn.
+  - intros a b. unfold nbr_pairs. rewrite filter_In, in_prod_iff. cbn [fst snd].
+    rewrite andb_true_iff, Nat.ltb_lt, adjb_spec. tauto.
+Qed.
+
+Lemma darc_spec : forall g u v, darc g u v = true <-> u <> v /\ arc g u v.
+Proof.
+  intros g u v. unfold darc. rewrite andb_true_iff, negb_true_iff, Nat.eqb_neq, arcb_spec. reflexivity.
+Qed.
+
+(* ================================================================== *)
+(* the path predicate used to validate returned paths                   *)
+(* ================================================================== *)
+
+Lemma succs_in : forall g u v w, In (v, w) (succs g u) <-> In (u, v, w) (ge g).
+Proof.
+  intros g u v w. unfold succs. rewrite in_map_iff. split.
+  - intros [[[a b] c] [E H]]. apply filter_In in H. destruct H as [Hin Hs].
+    unfold esrc, edst, ew in *. cbn [fst snd] in *. apply Nat.eqb_eq in Hs. inversion E; subst. exact Hin.
+  - intros Hin. exists (u, v, w). split; [reflexivity|]. apply filter_In. split; [exact Hin|].
+    unfold esrc. cbn [fst]. apply Nat.eqb_refl.
+Qed.
+
+Lemma path_sums_spec : forall g p c, In c (path_sums g p) <-> path_cost g p c.
+Proof.
+  intros g p; induction p as [|u r IH]; intros c.
+  - cbn. split; [intros []|intros H; inversion H].
+  - destruct r as [|v r'].
+    + cbn. split; [intros [<-|[]]; constructor|]. intros H; inversion H; subst. left; reflexivity.
+    + change (path_sums g (u :: v :: r')) with
+        (nodup N.eq_dec (flat_map (fun c0 => map (fun w => (w + c0)%N)
+           (map snd (filter (fun x => fst x =? v) (succs g u)))) (path_sums g (v :: r')))).
+      rewrite nodup_In, in_flat_map. split.
+      * intros [c0 [Hc0 Hc]]. apply IH in Hc0. apply in_map_iff in Hc. destruct Hc as [w [<- Hw]].
+        apply in_map_iff in Hw. destruct Hw as [[v' w'] [E Hw]]. cbn in E. subst w'.
+        apply filter_In in Hw. destruct Hw as [Hin Hv]. cbn [fst] in Hv. apply Nat.eqb_eq in Hv. subst v'.
+        constructor; [apply succs_in; exact Hin|exact Hc0].
+      * intros H. inversion H as [|? ? w ? c0 Hin Hp]; subst. exists c0. split; [apply IH; exact Hp|].
+        apply in_map_iff. exists w. split; [reflexivity|]. apply in_map_iff. exists (v, w).
+        split; [reflexivity|]. apply filter_In. split; [apply succs_in; exact Hin|].
+        cbn [fst]. apply Nat.eqb_refl.
+Qed.
+
+Theorem path_costb_spec : forall g p c, path_costb g p c = true <-> path_cost g p c.
+Proof.
+  intros g p c. unfold path_costb. rewrite existsb_exists, <- path_sums_spec. split.
+  - intros [x [Hx E]]. apply N.eqb_eq in E. subst x. exact Hx.
+  - intros H. exists c. split; [exact H|apply N.eqb_refl].
+Qed.
+
+Lemma last_cons_indep : forall (p : list nat) v a b, last (v :: p) a = last (v :: p) b.
+Proof.
+  induction p as [|x p IH]; intros v a b; [reflexivity|].
+  change (last (v :: x :: p) a) with (last (x :: p) a).
+  change (last (v :: x :: p) b) with (last (x :: p) b). apply IH.
+Qed.
+
+(* a validated path is a walk of that cost between its end points *)
+Lemma path_cost_walk : forall g p c, path_cost g p c ->
+  forall s, hd_error p = Some s -> walk g s (last p s) c.
+Proof.
+  intros g p c H; induction H as [v|u v w p c Hin H IH]; intros s Hs; cbn in Hs; inversion Hs; subst.
+  - cbn. apply walk_refl.
+  - change (last (s :: v :: p) s) with (last (v :: p) s).
+    rewrite (last_cons_indep p v s v).
+    eapply walk_trans; [apply walk_edge; exact Hin|]. apply IH. reflexivity.
+Qed.
+
+Theorem path_ok_real : forall g s t spec o, path_ok g s t spec o = true ->
+  match o with
+  | Some (p, c) => spec = Some c /\ path_cost g p c /\ hd_error p = Some s /\ last p s = t /\ walk g s t c
+  | None => spec = None
+  end.
+Proof.
+  intros g s t spec o H. unfold path_ok in H. destruct spec as [c0|], o as [[p c]|]; try discriminate; [|reflexivity].
+  apply andb_true_iff in H. destruct H as [H Hc]. apply andb_true_iff in H. destruct H as [He Hf].
+  apply N.eqb_eq in He. subst c0. apply path_costb_spec in Hc.
+  unfold path_fromto in Hf. destruct p as [|x r]; [discriminate|].
+  apply andb_true_iff in Hf. destruct Hf as [Hx Hl]. apply Nat.eqb_eq in Hx, Hl. subst x.
+  assert (Hlast : last (s :: r) s = t) by exact Hl.
+  repeat split; try assumption. rewrite <- Hlast. apply (path_cost_walk g (s :: r) c Hc s). reflexivity.
+Qed.
+
+(* ================================================================== *)
+(* Prim: the original incoming-edge lookup is wrong, the repaired one    *)
+(* is right on the witness                                               *)
+(* ================================================================== *)
+
+Definition prim_witness : graph := {| gn := 2; ge := [(1, 0, 5%N); (1, 0, 1%N)] |}.
+
+Lemma prim_original_defect :
+  mres_total (prim_original prim_witness) = Some 5%N /\
+  mres_total (prim_model prim_witness) = Some 1%N /\
+  mst_spec prim_witness = Some 1%N.
+Proof. vm_compute. repeat split. Qed.
+
+Theorem wcc_partition : forall g, wf g ->
+  (forall C, In C (wcc_spec g) ->
+     C <> [] /\ NoDup C /\
+     forall u, In u C -> forall v, In v C <-> v < gn g /\ reach (sym g) u v) /\
+  (forall v, v < gn g -> exists C, In C (wcc_spec g) /\ In v C) /\
+  (forall C1 C2 v, In C1 (wcc_spec g) -> In C2 (wcc_spec g) -> In v C1 -> In v C2 -> C1 = C2).
+Proof.
+  intros g Hwf. destruct (components_partition (sym g) (wf_sym g Hwf)) as [H1 [H2 H3]].
+  unfold wcc_spec. split; [|split; [exact H2|exact H3]].
+  intros C HC. destruct (H1 C HC) as [Hne [Hnd Hm]]. split; [exact Hne|]. split; [exact Hnd|].
+  intros u Hu v. rewrite (Hm u Hu v), sym_mutual. reflexivity.
+Qed.
+
+(* what a path result must satisfy to be "a real path of optimal cost (or none when unreachable)" *)
+Definition pres_optimal (g : graph) (s t : nat) (spec : option N) (r : pres) : Prop :=
+  match r with
+  | RNone => spec = None
+  | RPath p c => spec = Some c /\ path_cost g p c /\ hd_error p = Some s /\ last p s = t
+  | RFuel => False
+  end.
